@@ -58,8 +58,14 @@ func TracerouteSerial(ctx context.Context, t TracerouteDriver, p TracerouteSeria
 
 		if probe != nil {
 			log.Tracef("found probe %+v", probe)
+			// packets can get delivered twice - keep the first received probe for a TTL so that a late
+			// duplicate does not overwrite its RTT, but never let an ICMP response "cover up" a
+			// destination response (same rule as TracerouteParallel)
+			previous := results[probe.TTL]
+			if previous == nil || (!previous.IsDest && probe.IsDest) {
+				results[probe.TTL] = probe
+			}
 			// if we found the destination, no need to keep going
-			results[probe.TTL] = probe
 			if probe.IsDest {
 				break
 			}
